@@ -149,11 +149,31 @@ def render_ini(items, section="passlib"):
 # ---------------------------------------------------------------------------
 # observable state of a context
 # ---------------------------------------------------------------------------
+class Table(list):
+    """probe table + the categories to ask about (the fixed three and every category the configuration names)"""
+
+    cats = CATS
+
+
+def cats_of(cfg):
+    """CATS + the categories named by the keys of cfg (read off the key text: cat__scheme__option), each also in its
+    lower-cased spelling: categories are application strings and 'Admin' is not 'admin'"""
+    out = list(CATS)
+    for k in cfg:
+        parts = str(k).replace(".", "__").split("__")
+        if len(parts) == 3 and parts[0] != "default":
+            for c in (parts[0], parts[0].lower()):
+                if c not in out:
+                    out.append(c)
+    return tuple(out)
+
+
 def probe_table(cfg, seed):
     """probes for the base configuration: [(hash, real?, first-of-scheme?, kw)] (model only used to place the costs)"""
     mcfg, _ = materialize(cfg)
     model = M.Policy(mcfg)
-    table = []
+    table = Table()
+    table.cats = cats_of(cfg)
     for s in model.schemes:
         H = model.handlers[s]
         kw = {"user": "u"} if "user" in (getattr(H, "context_kwds", None) or ()) else {}
@@ -189,13 +209,14 @@ def fingerprint(ctx, table, seed, digests=True):
     fp.append(("to_string", call(ctx.to_string)))
     fp.append(("schemes", call(ctx.schemes)))
     fp.append(("context_kwds", call(lambda: tuple(sorted(ctx.context_kwds)))))
-    for cat in CATS:
+    cats = getattr(table, "cats", CATS)
+    for cat in cats:
         fp.append(("default_scheme", cat, call(ctx.default_scheme, category=cat)))
         for end in ("lo", "hi"):
             with env.scripted_rng(P.EndRng(end, seed)):
                 fp.append(("new_hash_settings", cat, end, call(ctx.genconfig, category=cat)))
     for n, (h, real, first, kw) in enumerate(table):
-        for cat in CATS:
+        for cat in cats:
             fp.append(("identify", n, cat, call(ctx.identify, h, category=cat)))
             fp.append(("needs_update", n, cat, call(ctx.needs_update, h, category=cat)))
         if digests and first:
@@ -888,7 +909,120 @@ def _replay(case):
         return eval_lazy(case)
     if part == "history":
         return eval_history(case)
+    if part == "options":
+        return eval_option(case)
     raise core.HarnessError(part)
+
+
+# ---------------------------------------------------------------------------
+# part "options": every scalar option of every registered hasher travels through every export route with its type
+# ---------------------------------------------------------------------------
+#: names a using() keyword can have (documented options of HasRounds / HasSalt / the individual hashers)
+OPTION_NAMES = ("min_rounds", "max_rounds", "default_rounds", "rounds", "min_desired_rounds", "max_desired_rounds", "vary_rounds",
+                "salt_size", "default_salt_size", "truncate_error", "version", "block_size", "parallelism", "memory_cost", "time_cost",
+                "max_threads", "digest_size", "checksum_size", "hash_len", "salt_len", "ident", "default_ident", "marker", "type", "algs",
+                "default_algs")
+OPTION_CATS = (None, "admin", "Admin")
+
+
+def option_values(H, opt):
+    """candidate values for option opt of hasher H, read off its public metadata; the first that H.using() takes silently is used"""
+    g = lambda a, d=None: getattr(H, a, d)  # noqa: E731
+    if opt in ("min_rounds", "max_rounds", "default_rounds", "rounds", "min_desired_rounds", "max_desired_rounds", "time_cost"):
+        return [v for v in (g("default_rounds"), g("min_rounds"), 12, 3) if isinstance(v, int)]
+    if opt == "vary_rounds":
+        return [0.125, 1]
+    if opt in ("salt_size", "default_salt_size", "salt_len"):
+        return [v for v in (g("default_salt_size"), g("min_salt_size"), g("max_salt_size"), 16) if isinstance(v, int)]
+    if opt == "truncate_error":
+        return [True]
+    if opt == "version":
+        return [1, 2, 19]
+    if opt in ("ident", "default_ident"):
+        return list(g("ident_values") or ())[-1:]
+    if opt == "type":
+        return ["ID", "id", "i"]
+    if opt in ("algs", "default_algs"):
+        return ["sha-1,sha-256"]
+    if opt == "marker":
+        return ["*LK*"]
+    return [2, 8, 24, 1024]
+
+
+def option_cases():
+    """(hasher name, option, value) triples the plain hasher accepts without a warning -- admissibility is read off the hasher
+    itself, never off CryptContext"""
+    from passlib import registry
+
+    out = []
+    for name in sorted(registry.list_crypt_handlers()):
+        H = registry.get_crypt_handler(name)
+        for opt in OPTION_NAMES:
+            for v in option_values(H, opt):
+                with warnings.catch_warnings():
+                    warnings.simplefilter("error")
+                    warnings.simplefilter("ignore", DeprecationWarning)
+                    try:
+                        H.using(**{opt: v})
+                    except Exception:  # noqa: BLE001 - not an option of this hasher / not a value it takes
+                        continue
+                out.append((name, opt, v))
+                break
+    return out
+
+
+def eval_option(case, tmpdir=None):
+    """one context carrying one option (optionally per category): to_dict() keeps value and type through every route"""
+    from passlib.context import CryptContext
+
+    name, opt, v, cat = case["hasher"], case["option"], case["value"], case["cat"]
+    key = f"{cat}__{name}__{opt}" if cat else f"{name}__{opt}"
+    out = []
+    tag = f"{opt}{':category' if cat else ''}"
+    try:
+        with warnings.catch_warnings():
+            warnings.simplefilter("ignore")
+            ctx = CryptContext(schemes=[name], **{key: v})
+    except Exception as e:  # noqa: BLE001
+        return [(f"C10|options|refused:{tag}:{type(e).__name__}", f"{name}.using({opt}={v!r}) is accepted, CryptContext(schemes=[{name!r}], {key}={v!r}) raised {e!r}")]
+    d0 = ctx.to_dict()
+    if d0.get(key, _MISSING) != v or type(d0.get(key)) is not type(v):
+        out.append((f"C10|options|to_dict:{tag}", f"CryptContext(schemes=[{name!r}], {key}={v!r}).to_dict() = {d0!r}"))
+
+    def same(label, make):
+        try:
+            with warnings.catch_warnings():
+                warnings.simplefilter("ignore")
+                other = make()
+                d1 = other.to_dict()
+        except Exception as e:  # noqa: BLE001
+            out.append((f"C10|options|{label}:raises:{tag}:{type(e).__name__}", f"{label} of CryptContext(schemes=[{name!r}], {key}={v!r}) raised {e!r}"))
+            return
+        if d1 != d0 or any(type(d1[k]) is not type(d0[k]) for k in d0):
+            out.append((f"C10|options|{label}:to_dict:{tag}", f"{label} of CryptContext(schemes=[{name!r}], {key}={v!r}): to_dict() {d0!r} became {d1!r}"))
+
+    same("ini", lambda: CryptContext.from_string(ctx.to_string()))
+    same("dict", lambda: CryptContext(**ctx.to_dict()))
+    same("copy", ctx.copy)
+
+    def via_path():
+        path = os.path.join(tmpdir or tempfile.gettempdir(), f"c10-opt-{os.getpid()}.cfg")
+        with open(path, "w", encoding="utf-8") as fh:
+            fh.write(ctx.to_string())
+        try:
+            return CryptContext.from_path(path)
+        finally:
+            os.unlink(path)
+
+    same("path", via_path)
+
+    def via_update():
+        o = CryptContext(schemes=[name])
+        o.update(**{key: v})
+        return o
+
+    same("update", via_update)
+    return out
 
 
 # ---------------------------------------------------------------------------
@@ -917,6 +1051,16 @@ EXTRAS = [
     # vary_rounds at the top of its range (1.0 = 100%) and as a whole-number float
     {"schemes": ["pbkdf2_sha256", "md5_crypt"], "pbkdf2_sha256__default_rounds": 200, "pbkdf2_sha256__vary_rounds": 1.0},
     {"schemes": ["sha256_crypt"], "sha256_crypt__default_rounds": 2000, "sha256_crypt__max_rounds": 4000, "all__vary_rounds": "100%"},
+    # categories are application strings ("any string the application wishes to use"): capitals must survive every route
+    {"schemes": ["sha256_crypt", "md5_crypt"], "Admin__context__default": "md5_crypt", "sha256_crypt__rounds": 1100,
+     "STAFF__sha256_crypt__rounds": 1300, "Admin__context__deprecated": ["sha256_crypt"]},
+    {"schemes": ["pbkdf2_sha256", "md5_crypt"], "pbkdf2_sha256__rounds": 150, "admin__pbkdf2_sha256__rounds": 170, "Admin__pbkdf2_sha256__rounds": 190,
+     "aDmin__context__default": "md5_crypt"},
+    {"schemes": ["sha256_crypt", "md5_crypt"], "sha256_crypt__rounds": 1100, "ü b-1__context__default": "md5_crypt", "ü b-1__sha256_crypt__rounds": 1200,
+     "42__context__deprecated": "md5_crypt"},
+    # an option explicitly given as None ("not set")
+    {"schemes": ["sha256_crypt", "md5_crypt"], "sha256_crypt__max_rounds": None, "sha256_crypt__rounds": 1100},
+    {"schemes": ["pbkdf2_sha256", "md5_crypt"], "pbkdf2_sha256__rounds": 150, "admin__pbkdf2_sha256__min_rounds": None, "all__vary_rounds": None},
 ]
 #: bases of the fault enumeration only (their inherited settings are outside the reference model)
 FAULT_EXTRAS = [
@@ -989,6 +1133,16 @@ def _work(task):
                     acc.axis("kind", "onload_fault")
                     for key, desc in eval_lazy(case):
                         acc.violation(key, desc, case)
+        elif kind == "options":
+            for case in task["cases"]:
+                acc.ev()
+                acc.cls("options", case["hasher"], case["option"], case["cat"])
+                acc.axis("option", case["option"])
+                acc.axis("option_category", str(case["cat"]))
+                for key, desc in eval_option(case, tmpdir):
+                    acc.violation(key, desc, case)
+                if acc.evaluations % 211 == 1:
+                    acc.sample(case)
         elif kind == "history":
             cfg, seed = task["base"], task["seed"]
             memo = {}
@@ -1032,6 +1186,9 @@ def run(ctx):
     rcases = [{"part": "roundtrip", "base": cfg, "seed": seed, "route": route, "cls": cls} for cls, cfg in rt for route in ROUTES]
     tasks += [{"kind": "history", "base": cfg, "seed": seed, "cls": cls} for cls, cfg in hb]
     tasks += [{"kind": "fault", "base": cfg, "seed": seed, "cls": cls} for cls, cfg in fb]
+    ocases = [{"part": "options", "hasher": n, "option": o, "value": v, "cat": c} for n, o, v in option_cases() for c in OPTION_CATS]
+    tasks += [{"kind": "options", "cases": ocases[i::16]} for i in range(16)]
+    ctx.cov["option_cases"] = len(ocases)
     nsh = 96 if ctx.quick else 256
     tasks += [{"kind": "roundtrip", "cases": rcases[i::nsh]} for i in range(nsh) if rcases[i::nsh]]
     ctx.log(f"{len(rt)} round-trip bases x {len(ROUTES)} routes, {len(fb)} fault bases, {len(hb)} history bases")
